@@ -209,6 +209,12 @@ impl<R: Read + Seek> ReadBox<&mut R> for EsdsBox {
         let end = start + size;
         while current < end {
             let (desc_tag, desc_size) = read_desc(reader)?;
+            // a descriptor lies inside the box that holds it, whatever length it declares
+            if reader.stream_position()? + desc_size as u64 > end {
+                return Err(Error::InvalidData(
+                    "esds descriptor extends beyond the box",
+                ));
+            }
             match desc_tag {
                 0x03 => {
                     es_desc = Some(ESDescriptor::read_desc(reader, desc_size)?);
@@ -350,6 +356,11 @@ impl<R: Read + Seek> ReadDesc<&mut R> for ESDescriptor {
         while current < end {
             let (desc_tag, desc_size) = read_desc(reader)?;
             let desc_end = reader.stream_position()? + desc_size as u64;
+            if desc_end > end {
+                return Err(Error::InvalidData(
+                    "descriptor extends beyond the descriptor that holds it",
+                ));
+            }
             match desc_tag {
                 0x04 => {
                     dec_config = Some(DecoderConfigDescriptor::read_desc(reader, desc_size)?);
